@@ -101,6 +101,62 @@ def program(n, edges, variant, main_mode):
     return files
 
 
+# ---------------------------------------------------------------- initialisers that depend on the run-time type table
+# The program entry publishes the type table before any package initialiser runs; initialisers and init functions that build types with reflect
+# (SliceOf / MapOf / PointerTo / ArrayOf) must get the very descriptors of the static types, in a dependency package and in main.
+TT_BODY = """var T1 = tr.Add("%(p)s.T1=" + b2s(reflect.SliceOf(reflect.TypeOf(0)) == reflect.TypeOf([]int(nil))))
+var T2 = tr.Add("%(p)s.T2=" + b2s(reflect.MapOf(reflect.TypeOf(""), reflect.TypeOf(0)) == reflect.TypeOf(map[string]int(nil))))
+var T3 = tr.Add("%(p)s.T3=" + b2s(reflect.PointerTo(reflect.TypeOf(rec{})) == reflect.TypeOf(&rec{})))
+var T4 = tr.Add("%(p)s.T4=" + sum3())
+var T5 = tr.Add("%(p)s.T5=" + b2s(reflect.ArrayOf(3, reflect.TypeOf(int8(0))) == reflect.TypeOf([3]int8{})))
+
+type rec struct {
+	A int
+	B string
+}
+
+func sum3() string {
+	v := reflect.MakeSlice(reflect.SliceOf(reflect.TypeOf(0)), 0, 3)
+	v = reflect.Append(v, reflect.ValueOf(3), reflect.ValueOf(4))
+	xs, ok := v.Interface().([]int)
+	if !ok {
+		return "notaslice"
+	}
+	n := 0
+	for _, x := range xs {
+		n += x
+	}
+	m := reflect.MakeMap(reflect.MapOf(reflect.TypeOf(""), reflect.TypeOf(0)))
+	m.SetMapIndex(reflect.ValueOf("k"), reflect.ValueOf(5))
+	if mm, ok := m.Interface().(map[string]int); ok {
+		n += mm["k"]
+	}
+	return string(rune('0'+n%%10)) + string(rune('0'+n/10))
+}
+
+func b2s(b bool) string {
+	if b {
+		return "true"
+	}
+	return "false"
+}
+
+func init() {
+	tr.Add("%(p)s.init=" + b2s(reflect.SliceOf(reflect.TypeOf(rec{})) == reflect.TypeOf([]rec(nil))) + sum3())
+}
+"""
+
+
+def typetable_program():
+    files = {"tr/tr.go": TR}
+    files["p0/p0.go"] = "package p0\n\nimport (\n\t\"reflect\"\n\n\t\"vt/tr\"\n)\n\n" + TT_BODY % dict(p="p0") + "\nfunc F(from string) int { return tr.Add(\"p0.F<-\" + from) }\n"
+    main = PRELUDE.replace('import (\n\t"os"\n\t"unsafe"\n)', 'import (\n\t"os"\n\t"reflect"\n\t"unsafe"\n\n\t"vt/p0"\n\t"vt/tr"\n)')
+    main += "\nvar M0 = tr.Add(\"main.M0\") + p0.F(\"main\")\n\n" + TT_BODY % dict(p="main")
+    main += "\nfunc main() {\n\ttr.Add(\"main.main=\" + b2s(reflect.SliceOf(reflect.TypeOf(0)) == reflect.TypeOf([]int(nil))))\n\trunAll([]func(){func() {\n\t\ts := \"\"\n\t\tfor _, e := range tr.T {\n\t\t\ts += e + \" \"\n\t\t}\n\t\temit(\"order\", s)\n\t}})\n}\n"
+    files["main.go"] = main
+    return files
+
+
 def programs(tier):
     ps = {}
     maxn = 4 if tier == "thorough" else 3
@@ -117,6 +173,7 @@ def programs(tier):
                         continue  # no middle package in this DAG
                     name = "n%d_d%d_%s_%s" % (n, di, v, mm)
                     ps[name] = program(n, edges, v, mm)
+    ps["typetable_init"] = typetable_program()
     return ps
 
 
